@@ -519,6 +519,8 @@ class ExprMixin:
     # ------------------------------------------------------------------ subscripts / attributes
     def ev_Subscript(self, node, st, ctx):
         base = self.ev(node.value, st, ctx)
+        if base.ty.kind == "opaque":
+            return base  # data-frame / ndarray selections keep the provenance of the value
         if isinstance(node.slice, ast.Slice):
             return self.slice_of(base, node.slice, st, ctx, node)
         idx = self.ev(node.slice, st, ctx)
